@@ -14,6 +14,8 @@ import (
 	"sync"
 	"time"
 
+	"github.com/wundergraph/graphql-go-tools/v2/pkg/ast"
+	"github.com/wundergraph/graphql-go-tools/v2/pkg/astparser"
 	"github.com/wundergraph/graphql-go-tools/v2/pkg/engine/datasource/httpclient"
 	"github.com/wundergraph/graphql-go-tools/v2/pkg/engine/plan"
 	"github.com/wundergraph/graphql-go-tools/v2/pkg/engine/postprocess"
@@ -26,12 +28,14 @@ type c08Fetch struct {
 	ID   int   `json:"id"`
 	Deps []int `json:"deps"`
 	Dup  int   `json:"dupOf"` // -1, or the id of an earlier fetch this one is an exact duplicate of
+	Ent  int   `json:"entity"` // -1, or the index of the subgraph this fetch is a batch entity fetch on (multi-fetch candidate)
 }
 
 type c08Tree struct {
 	K  string     `json:"k"`
 	ID int        `json:"id,omitempty"`
 	C  []*c08Tree `json:"c,omitempty"`
+	M  []int      `json:"merged,omitempty"` // original fetch ids served by a merged (multi entity) leaf
 }
 
 func (t *c08Tree) String() string {
@@ -39,6 +43,9 @@ func (t *c08Tree) String() string {
 		return "nil"
 	}
 	if t.K == "single" {
+		if len(t.M) > 0 {
+			return fmt.Sprintf("Multi%v", t.M)
+		}
 		return fmt.Sprint(t.ID)
 	}
 	parts := make([]string, len(t.C))
@@ -58,7 +65,7 @@ func c08GenDAG(r *rand.Rand) []c08Fetch {
 	// topological position = index in `order`; edges only from later to earlier positions
 	fs := make([]c08Fetch, n)
 	for i := 0; i < n; i++ {
-		fs[i] = c08Fetch{ID: ids[i], Dup: -1}
+		fs[i] = c08Fetch{ID: ids[i], Dup: -1, Ent: -1}
 		for j := 0; j < i; j++ {
 			if r.Float64() < density {
 				fs[i].Deps = append(fs[i].Deps, ids[j])
@@ -71,12 +78,21 @@ func c08GenDAG(r *rand.Rand) []c08Fetch {
 			r.Shuffle(len(fs[i].Deps), func(a, b int) { fs[i].Deps[a], fs[i].Deps[b] = fs[i].Deps[b], fs[i].Deps[a] })
 		}
 	}
+	// batch entity fetches on one of two subgraphs (candidates for multi-fetch merging)
+	if r.Intn(2) == 0 {
+		for i := range fs {
+			if len(fs[i].Deps) > 0 && r.Intn(2) == 0 {
+				fs[i].Ent = r.Intn(2)
+			}
+		}
+	}
 	// exact duplicates (same input, same dependencies) for the de-duplication stage
 	if n >= 2 && r.Intn(4) == 0 {
 		i := 1 + r.Intn(n-1)
 		j := r.Intn(i)
 		fs[i].Dup = fs[j].ID
 		fs[i].Deps = append([]int{}, fs[j].Deps...)
+		fs[i].Ent = fs[j].Ent
 	}
 	// present the fetches to the organiser in random order
 	r.Shuffle(n, func(a, b int) { fs[a], fs[b] = fs[b], fs[a] })
@@ -140,7 +156,7 @@ func (d *c08DS) LoadWithFiles(ctx context.Context, headers http.Header, input []
 	return d.Load(ctx, headers, input)
 }
 
-func c08BuildPlan(fs []c08Fetch, ctrl *c08Ctrl) *plan.SynchronousResponsePlan {
+func c08BuildPlan(fs []c08Fetch, ctrl *c08Ctrl, multi bool) *plan.SynchronousResponsePlan {
 	items := make([]*resolve.FetchItem, len(fs))
 	var fields []*resolve.Field
 	keyOf := map[int]int{} // a duplicate writes (and is read) at the response position of the fetch it duplicates
@@ -171,6 +187,31 @@ func c08BuildPlan(fs []c08Fetch, ctrl *c08Ctrl) *plan.SynchronousResponsePlan {
 			fmt.Fprintf(&sb, `{"d":%d,"v":%s}`, d, name)
 		}
 		sb.WriteString("]}")
+		if multi && f.Ent >= 0 {
+			src := fmt.Sprintf(`query($representations: [_Any!]!){_entities(representations: $representations){... on T%d {__typename field%d}}}`, f.Ent, key)
+			doc, rep := astparser.ParseGraphqlDocumentString(src)
+			if rep.HasErrors() {
+				panic(rep.Error())
+			}
+			sfetch := &resolve.SingleFetch{
+				FetchDependencies: resolve.FetchDependencies{FetchID: f.ID, DependsOnFetchIDs: append([]int{}, f.Deps...)},
+				Info:              &resolve.FetchInfo{DataSourceID: fmt.Sprintf("sg%d", f.Ent), DataSourceName: fmt.Sprintf("sg%d", f.Ent), OperationType: ast.OperationTypeQuery},
+				FetchConfiguration: resolve.FetchConfiguration{
+					Input:          `{"method":"POST","url":"http://sg` + fmt.Sprint(f.Ent) + `","body":{"query":"` + src + `","variables":{"representations":[$$0$$]}}}`,
+					Variables:      resolve.NewVariables(resolve.NewResolvableObjectVariable(&resolve.Object{})),
+					DataSource:     &c08DS{id: f.ID},
+					PostProcessing: resolve.PostProcessingConfiguration{MergePath: []string{fmt.Sprintf("m%d", key)}},
+					SubgraphOperation: &resolve.SubgraphOperation{
+						Document:  &doc,
+						Variables: []resolve.SubgraphVariable{{Name: "representations", Value: []byte("[$$0$$]")}},
+						Envelope:  resolve.SubgraphRequestEnvelope{Method: "POST", URL: "http://sg" + fmt.Sprint(f.Ent)},
+					},
+					RequiresEntityBatchFetch: true,
+				},
+			}
+			items[i] = resolve.FetchItemWithPath(sfetch, "items")
+			continue
+		}
 		items[i] = &resolve.FetchItem{Fetch: &resolve.SingleFetch{
 			FetchDependencies: resolve.FetchDependencies{FetchID: f.ID, DependsOnFetchIDs: append([]int{}, f.Deps...)},
 			FetchConfiguration: resolve.FetchConfiguration{
@@ -196,6 +237,9 @@ func c08Export(n *resolve.FetchTreeNode) *c08Tree {
 	}
 	switch n.Kind {
 	case resolve.FetchTreeNodeKindSingle:
+		if m, ok := n.Item.Fetch.(*resolve.MultiEntityFetch); ok {
+			return &c08Tree{K: "single", ID: m.FetchID, M: append([]int{}, m.MergedFetchIDs...)}
+		}
 		return &c08Tree{K: "single", ID: n.Item.Fetch.Dependencies().FetchID}
 	case resolve.FetchTreeNodeKindSequence, resolve.FetchTreeNodeKindParallel:
 		t := &c08Tree{K: "seq"}
@@ -215,15 +259,10 @@ func c08Export(n *resolve.FetchTreeNode) *c08Tree {
 type c08Opts struct {
 	Scheduler bool `json:"scheduler"`
 	NoDedupe  bool `json:"noDedupe"`
+	Multi     bool `json:"multiFetch"`
 }
 
-func c08Process(fs []c08Fetch, o c08Opts, ctrl *c08Ctrl) (p *plan.SynchronousResponsePlan, tree *c08Tree, panicked any) {
-	defer func() {
-		if r := recover(); r != nil {
-			panicked = r
-		}
-	}()
-	p = c08BuildPlan(fs, ctrl)
+func (o c08Opts) processor() *postprocess.Processor {
 	var opts []postprocess.ProcessorOption
 	if o.Scheduler {
 		opts = append(opts, postprocess.EnableScheduleFetches())
@@ -231,8 +270,68 @@ func c08Process(fs []c08Fetch, o c08Opts, ctrl *c08Ctrl) (p *plan.SynchronousRes
 	if o.NoDedupe {
 		opts = append(opts, postprocess.DisableDeduplicateSingleFetches())
 	}
-	postprocess.NewProcessor(opts...).Process(p)
+	if o.Multi {
+		opts = append(opts, postprocess.EnableMultiFetch())
+	}
+	return postprocess.NewProcessor(opts...)
+}
+
+func c08Process(fs []c08Fetch, o c08Opts, ctrl *c08Ctrl) (p *plan.SynchronousResponsePlan, tree *c08Tree, panicked any) {
+	return c08ProcessWith(o.processor(), fs, o, ctrl)
+}
+
+func c08ProcessWith(proc *postprocess.Processor, fs []c08Fetch, o c08Opts, ctrl *c08Ctrl) (p *plan.SynchronousResponsePlan, tree *c08Tree, panicked any) {
+	defer func() {
+		if r := recover(); r != nil {
+			panicked = r
+		}
+	}()
+	p = c08BuildPlan(fs, ctrl, o.Multi)
+	proc.Process(p)
 	return p, c08Export(p.Response.Fetches), nil
+}
+
+// the expected dependency relation over the LEAVES of the produced tree: a merged (multi entity) leaf
+// serves all its members, reads what any member reads, and stands for every member in others' dependencies
+func c08LeafDeps(t *c08Tree, deps map[int][]int, known []int) (map[int][]int, []int) {
+	rep := map[int]int{}
+	var collect func(n *c08Tree)
+	collect = func(n *c08Tree) {
+		if n == nil {
+			return
+		}
+		for _, m := range n.M {
+			rep[m] = n.ID
+		}
+		for _, c := range n.C {
+			collect(c)
+		}
+	}
+	collect(t)
+	if len(rep) == 0 {
+		return deps, known
+	}
+	r := func(i int) int {
+		if x, ok := rep[i]; ok {
+			return x
+		}
+		return i
+	}
+	nd := map[int][]int{}
+	nk := []int{}
+	for _, k := range known {
+		rk := r(k)
+		if !containsInt(nk, rk) {
+			nk = append(nk, rk)
+		}
+		for _, d := range deps[k] {
+			if rd := r(d); rd != rk && !containsInt(nd[rk], rd) {
+				nd[rk] = append(nd[rk], rd)
+			}
+		}
+	}
+	sort.Ints(nk)
+	return nd, nk
 }
 
 // independent Go oracle: before-set walk over the exported tree
@@ -562,6 +661,11 @@ func c08CheckOrganiser(run *Run, fs []c08Fetch, o c08Opts) {
 		feats = append(feats, "has_parallel")
 	}
 	run.Count(key, feats...)
+	if o.Multi && tree != nil && strings.Contains(tree.String(), "Multi") {
+		feats = append(feats, "has_merged_leaf")
+		run.Feat("has_merged_leaf")
+	}
+	deps, known = c08LeafDeps(tree, deps, known)
 	if msg := c08OracleTree(tree, deps, known); msg != "" {
 		run.Violate(Violation{Kind: "oracle", Clause: "dependencies_respected_in_every_schedule", Input: in, Impl: map[string]any{"tree": tree.String()}, Detail: msg}, "")
 		return
@@ -584,7 +688,7 @@ func c08CheckOrganiser(run *Run, fs []c08Fetch, o c08Opts) {
 		run.Violate(Violation{Kind: "correspondence", Clause: "c08.validate (proved checker) rejects a tree the Go oracle accepts", Input: in, Impl: map[string]any{"tree": tree.String()}, Model: decodeRaw(m)}, "")
 	}
 	// model correspondence for the legacy pipeline (wave structure)
-	if !o.Scheduler {
+	if !o.Scheduler && !o.Multi {
 		eff := [][2]any{}
 		for _, f := range fs { // order as given to the organiser, after de-duplication
 			if _, ok := deps[f.ID]; ok || containsInt(known, f.ID) {
@@ -720,7 +824,7 @@ func runC08(run *Run, replay string) Spec {
 	if run.Tier == "thorough" {
 		n, nLoader = 1_500_000, 20_000
 	}
-	allOpts := []c08Opts{{false, false}, {true, false}, {false, true}, {true, true}}
+	allOpts := []c08Opts{{false, false, false}, {true, false, false}, {false, true, false}, {true, true, false}, {false, false, true}, {true, false, true}}
 	parallelFor(n, 12, func(i int) {
 		if run.NViolations() >= 20 {
 			return
@@ -729,6 +833,22 @@ func runC08(run *Run, replay string) Spec {
 		fs := c08GenDAG(r)
 		for _, o := range allOpts {
 			c08CheckOrganiser(run, fs, o)
+		}
+		// history: one Processor instance handles several plans in a row and must treat each like a fresh one
+		if i%8 == 0 {
+			o := allOpts[r.Intn(len(allOpts))]
+			proc := o.processor()
+			for k := 0; k < 3; k++ {
+				fk := c08GenDAG(r)
+				_, reused, p1 := c08ProcessWith(proc, fk, o, nil)
+				_, fresh, p2 := c08Process(fk, o, nil)
+				run.Count("", "processor_reuse")
+				if p1 != nil || p2 != nil || reused.String() != fresh.String() {
+					run.Violate(Violation{Kind: "oracle", Clause: "plan_depends_on_previous_plans_of_the_processor", Input: map[string]any{"fetches": fk, "options": o, "position_in_history": k},
+						Impl: map[string]any{"reused_processor": reused.String(), "fresh_processor": fresh.String(), "panic": fmt.Sprint(p1, p2)}}, "")
+					return
+				}
+			}
 		}
 	})
 	parallelFor(nLoader, 8, func(i int) {
